@@ -588,10 +588,13 @@ class Model:
                 const = np.array([0])
                 sense = np.array([1])
 
-            vtype = np.concatenate([np.array([item.vtype] * item.size)
-                                    if len(item.vtype) == 1
-                                    else np.array(list(item.vtype))
-                                    for item in self.vars + self.auxs])
+            # one letter per column; columns left behind by the auxiliary
+            # variables of an earlier formulation are plain continuous
+            vtype = np.array(['C'] * self.last)
+            for item in self.vars + self.auxs:
+                letters = ([item.vtype] * item.size if len(item.vtype) == 1
+                           else list(item.vtype))
+                vtype[item.first:item.first + item.size] = letters
 
             ub = np.array([np.inf] * self.last)
             lb = np.array([-np.inf] * self.last)
